@@ -1843,7 +1843,7 @@ fn main() {
     if mode == Mode::Crash {
         big_cleanup_crash_history(&mut r, &mut rng);
     }
-    if mode == Mode::Cap {
+    if mode == Mode::Cap || mode == Mode::Sched {
         big_cleanup_history(&mut r, &mut rng);
     }
     r.flush_fails();
@@ -2109,6 +2109,21 @@ fn big_cleanup_history(r: &mut Runner, rng: &mut Rng) {
     put(r, base + thr - 1);
     r.line("cleanup"); // at the threshold: everything at or beyond the range goes
     r.line(&format!("metrics {base}"));
+    // the most recent puts are still in the read cache: a record the clean-up removed must not be served from it,
+    // and putting it again must really store it (not be taken for a duplicate of the cached copy)
+    r.line("cache");
+    for k in base + thr - 4..base + thr {
+        r.line(&format!("get {k}"));
+        r.line(&format!("contains {k}"));
+    }
+    for k in base + thr - 2..base + thr {
+        put(r, k);
+        r.line(&format!("get {k}"));
+    }
+    r.line("cleanup");
+    for k in base + thr - 2..base + thr {
+        r.line(&format!("get {k}"));
+    }
     r.line("dist");
     r.line("far");
     r.line("pending");
